@@ -331,6 +331,32 @@ func runC07(seed uint64, tier, dir, replay string) error {
 			add(kind, "word-maxed", c)
 		}
 	}
+	// nested containers: a conntrack action around one or two actions of every kind, inside a
+	// packet-out; every 16-bit position of the frame set to 0, 8 and 0xffff (the nested
+	// action's own length field is among them)
+	nnest := 36
+	if tier == "thorough" {
+		nnest = 600
+	}
+	for i := 0; i < nnest; i++ {
+		ct := of.NewNXActionConnTrack()
+		for k := 0; k <= i%2; k++ {
+			a, _ := g.action(0)
+			ct.AddAction(a)
+		}
+		g.flushLate()
+		po := of.NewPacketOut()
+		po.AddAction(ct)
+		b, ok := marshalSafe(po)
+		if !ok || len(b) < 8 || len(b) > 400 {
+			continue
+		}
+		for _, v := range []uint16{0, 8, 0xffff} {
+			for _, c := range wordSweep(b, v, 200, rng) {
+				add("packet-out/ct-nested", "nested-word-sweep", c)
+			}
+		}
+	}
 	// list decoders at the 64 KiB limit; extreme IPv6 extension-header lengths in packet-ins
 	// (the model's loops re-slice from the start of the frame, which costs it a minute per
 	// 64 KiB frame: at the quick tier only the description-statistics frames go through the
@@ -348,7 +374,7 @@ func runC07(seed uint64, tier, dir, replay string) error {
 		o.Meta["direct_violations"] = direct
 	}
 	o.Meta["outcomes"] = outcomes
-	o.Meta["rule"] = "the parser entry point on: all 256 message-type bytes on 8- and 64-byte frames; inputs of 0..7 bytes; for random valid frames of every kind (see C05) the frame itself, its truncation at every offset (sampled above 160 bytes), 16-bit positions in the first 96 bytes set to 0 / 1 / 0xffff / +-1 / +-8 / a random byte, and structure-blind mutations; every 16-bit position at an even offset of whole frames set to 0 and to 0xffff (sampled above 260 positions); frames at the 64 KiB limit for every list decoder (multipart records of each type with the length field at 65535 and buffers of 65535 and 65600 bytes, instructions, actions, match fields, buckets, hello elements, ports, tlv maps, a nested bundle); packet-ins whose IPv6 extension headers carry Hdr Ext Len 0/1/31/254/255 on packets long enough to hold them; each parse runs in a worker subprocess under a 3 s wall-clock limit and a 1 GiB heap limit; distinct by kind x input kind x outcome x size bucket"
+	o.Meta["rule"] = "the parser entry point on: all 256 message-type bytes on 8- and 64-byte frames; inputs of 0..7 bytes; for random valid frames of every kind (see C05) the frame itself, its truncation at every offset (sampled above 160 bytes), 16-bit positions in the first 96 bytes set to 0 / 1 / 0xffff / +-1 / +-8 / a random byte, and structure-blind mutations; every 16-bit position at an even offset of whole frames set to 0 and to 0xffff (sampled above 260 positions); packet-outs carrying a conntrack action around one or two nested actions of every kind, every 16-bit position set to 0, 8 and 0xffff; frames at the 64 KiB limit for every list decoder (multipart records of each type with the length field at 65535 and buffers of 65535 and 65600 bytes, instructions, actions, match fields, buckets, hello elements, ports, tlv maps, a nested bundle); packet-ins whose IPv6 extension headers carry Hdr Ext Len 0/1/31/254/255 on packets long enough to hold them; each parse runs in a worker subprocess under a 3 s wall-clock limit and a 1 GiB heap limit; distinct by kind x input kind x outcome x size bucket"
 	return o.Close()
 }
 
